@@ -320,6 +320,9 @@ func (x *fleetExec) step(e engine.Event) {
 	sig := x.sigFor(e)
 	done := false
 	if nd.dirty && e.Ev != "clear" {
+		if x.prop == "C16" && e.Ev == "reweight" {
+			x.reweightDirty(e, nd, sig)
+		}
 		return
 	}
 	if post := x.hook.before(x, e, nd); post != nil {
@@ -668,7 +671,7 @@ func (x *fleetExec) deliver(e engine.Event, nd *knode, sig string) bool {
 	if nd.exact() && !m.exact {
 		// documented: the exact decoder cannot take a plain encoding. In C15 the refused decode is
 		// performed all the same - its owner then clears the sketch and re-uses it.
-		if x.prop == "C15" && (m.form == "bin" || m.form == "binomit") && e.S == "merge" && !m.model.IsEmpty() && nd.twin == nil && nd.replica == nil {
+		if (x.prop == "C15" || x.prop == "C16") && (m.form == "bin" || m.form == "binomit") && e.S == "merge" && !m.model.IsEmpty() && nd.twin == nil && nd.replica == nil && !nd.tainted && !m.tainted && x.mergeFits(nd.model, m.model) {
 			var err error
 			x.lib("DecodeAndMergeWith", sig, func() { err = nd.real.DecodeAndMergeWith(append([]byte(nil), m.data...)) })
 			x.st.Probe("plain-encoding-offered-to-exact-sketch")
@@ -1108,4 +1111,37 @@ func (x *fleetExec) mergeFitsNodes(dst, src *knode) bool {
 		}
 	}
 	return dst.model.FitsAfter(math.Max(src.model.ValTotal, src.model.Count()), minInt(src.model.Gran(), src.model.ValGran))
+}
+
+// reweightDirty: C16 on a sketch whose model is unknown (a decode into it was refused half-way
+// or silently accepted without statistics): whatever it holds, every bin, the zero weight and the
+// count must scale by the factor. Only small powers of two are applied.
+func (x *fleetExec) reweightDirty(e engine.Event, nd *knode, sig string) {
+	w := float64(e.W)
+	if fr, ex := math.Frexp(w); fr != 0.5 || ex < -3 || ex > 5 || !(w > 0) {
+		return
+	}
+	before := x.snapSketch(nd.real, "reweight-before")
+	var err error
+	x.lib("Reweight", sig, func() { err = nd.real.Reweight(w) })
+	if err != nil {
+		x.fail("accepts-valid", sig, fmt.Sprintf("Reweight(%v) refused: %v", w, err), "accepted", err.Error())
+	}
+	after := x.snapSketch(nd.real, "reweight-after")
+	x.st.Oracle("bins-scaled")
+	x.st.Probe("reweight-of-a-sketch-with-unknown-model")
+	for name, pair := range map[string][2]*storeSnap{"positive": {before.Pos, after.Pos}, "negative": {before.Neg, after.Neg}} {
+		b, a := pair[0], pair[1]
+		if len(b.Bins) != len(a.Bins) {
+			x.fail("support-unchanged", sig, "Reweight made a bin appear or disappear on the "+name+" side", refmodel.BinsString(b.Bins), refmodel.BinsString(a.Bins))
+		}
+		for i := range b.Bins {
+			if b.Bins[i].Index != a.Bins[i].Index || a.Bins[i].Count != b.Bins[i].Count*w {
+				x.fail("bins-scaled", sig, fmt.Sprintf("%s bin %d: weight %v did not become %v", name, b.Bins[i].Index, b.Bins[i].Count, b.Bins[i].Count*w), fmt.Sprint(b.Bins[i].Count*w), refmodel.BinsString(a.Bins))
+			}
+		}
+	}
+	if after.Zero != before.Zero*w {
+		x.fail("zero-and-count-scaled", sig, "the zero weight did not scale by the factor", fmt.Sprint(before.Zero*w), fmt.Sprint(after.Zero))
+	}
 }
